@@ -274,6 +274,37 @@ def must_accept(world, text, variant, exp, op, tag):
         raise Bad("rejected_wellformed", f"{op}/{type(e).__name__}",
                   f"well-formed document rejected: {type(e).__name__}: {e} <- {type(e.__cause__).__name__}: {e.__cause__}") from None
     compare(tree, exp, op)
+    kept = getattr(world, "retained", None)
+    if kept is not None and len(kept) < 5:
+        kept.append((tree, exp, op))
+
+
+def recheck_retained(world, k: int, label: str):
+    """History step: convert an unrelated small document, then look again at the trees returned by earlier
+    conversions of this run.  A result must stay the conversion of *its* document whatever is converted later
+    (a converter that fills a table shared between calls hands out trees that change under their owner)."""
+    kept = getattr(world, "retained", None) or []
+    if not kept:
+        return
+    other = {"label": "Axon" if label.upper().startswith("D") else "Dendrite",
+             "body": {"points": [[str(100 + k), "-2", "3.5", "0.5"], [str(101 + k), "-2.25", "4", "0.75"]],
+                      "split": [{"points": [[str(102 + k), "0", "1", "0.25"]]},
+                                {"points": [[str(103 + k), "7", "1e1", "1.5"], ["8", "9", "10", "0.125"]]}]}}
+    t_other, _ = asc_model.render(asc_model.tokens_of(other), [" ", "\n", " ", " "])
+    keep, world.retained = world.retained, None
+    try:
+        must_accept(world, t_other, {"source": "string", "stream": {}}, asc_model.expected_table(other),
+                    "bystander:string", f"by{k}")
+    finally:
+        world.retained = keep
+    for tree, exp, op in kept:
+        try:
+            compare(tree, exp, op)
+        except Bad as b:
+            raise Bad("result_changed", f"{op.split(':')[0]}:after_later_conversion",
+                      f"a tree returned earlier no longer matches its document after another document was "
+                      f"converted: {b.v['detail']}") from None
+    world.probe("c15.retained_rechecked", len(kept))
 
 
 def must_reject(world, text, variant, op, tag, why, eio_frac=None):
@@ -315,7 +346,10 @@ def execute(program: dict) -> dict:
             depth = depth_of(doc["body"])
             bucket = f"d{min(depth, 9)}n{min(npts, 9) if npts < 10 else (npts // 10) * 10 if npts < 100 else 100}"
             world.log("doc", len(text), npts, depth)
+            world.retained = []
             for vi, v in enumerate(program["variants"]):
+                if vi:
+                    recheck_retained(world, vi, doc["label"])
                 steps += 1
                 kind = v["kind"]
                 src = v["source"]
@@ -438,6 +472,7 @@ def execute(program: dict) -> dict:
                     except Exception as e:  # noqa: BLE001
                         raise Bad("rejected_wellformed", f"{op}/{type(e).__name__}", f"{type(e).__name__}: {e}") from None
                     compare(second, exp2, f"{op}:second_read")
+                    compare(first, exp, f"{op}:first_result_after_second_read")
                     world.fired("file_replaced_in_place")
                     judged_fault = True
                     world.log(vi, op, v["keep_mtime"], "ok")
@@ -451,6 +486,7 @@ def execute(program: dict) -> dict:
                     world.log(vi, op, out)
                 states.append(f"{bucket}|{kind}|{src}")
                 world.take_warnings()
+            recheck_retained(world, len(program["variants"]), doc["label"])
         except Bad as e:
             violation = e.v
             world.log("violation", violation["tag"], violation["op"])
